@@ -942,3 +942,74 @@ Proof.
   destruct (restricted_holm_at (pi_SP x) (pi_T x) (pi_p x) Hr HT g q Eq) as (_ & _ & a' & h & Ea & Eh & Hiff).
   rewrite Ha in Ea. inversion Ea; subst a'. exists h. split; [exact Eh | apply Hiff; exact Hlt].
 Qed.
+
+(* ------------------------------------------------------------------ *)
+(* Inputs on which Python raises although the model is total (audit, defect 10).
+   pair_wf: the per-gene arrays of a pair have one length (numpy refuses to combine arrays of
+   different lengths: ValueError); 1 <= n_processors (n_pairs // (2*n_processors) raises
+   ZeroDivisionError for 0, where Z division gives n_per = 8).  The property theorems carry
+   these hypotheses; the lemmas below are the stronger statements restricted to them. *)
+Definition pair_wf (x : pair_in) : Prop :=
+  length (pi_p x) = length (pi_scores x) /\ length (pi_mean1 x) = length (pi_scores x) /\
+  length (pi_mean2 x) = length (pi_scores x).
+
+Lemma sdg_sound_wf : forall st mask x v up g, pair_wf x ->
+  - st_S st < q1_min (st_th st) -> q1_min (st_th st) < q1_th (st_th st) ->
+  score_differential_genes st mask x = POk (v, up) -> nth_error v g = Some true ->
+  st_n_min st <= pi_n1 x /\ st_n_min st <= pi_n2 x /\
+  (exists a, nth_error (approx_correct_ttest (pi_SP x) (pi_T x) (pi_p x)) g = Some a /\ a < pi_T x) /\
+  in_list mask g /\
+  exists sc, nth_error (pi_scores x) g = Some sc /\ crit (st_th st) (st_exact st) sc.
+Proof. intros st mask x v up g _. apply sdg_sound. Qed.
+
+Lemma sdg_complete_wf : forall st mask x v up g sc, pair_wf x ->
+  0 < st_S st ->
+  score_differential_genes st mask x = POk (v, up) ->
+  st_n_min st <= pi_n1 x -> st_n_min st <= pi_n2 x ->
+  (exists a, nth_error (approx_correct_ttest (pi_SP x) (pi_T x) (pi_p x)) g = Some a /\ a < pi_T x) ->
+  in_list mask g ->
+  nth_error (pi_scores x) g = Some sc -> strictly_passes (st_th st) sc ->
+  nth_error v g = Some true.
+Proof. intros st mask x v up g sc (_ & W & _) HS. apply sdg_complete; assumption. Qed.
+
+Lemma sdg_exact_iff_wf : forall st mask x v up g, pair_wf x ->
+  st_exact st = true ->
+  - st_S st < q1_min (st_th st) -> q1_min (st_th st) < q1_th (st_th st) -> 0 < st_S st ->
+  score_differential_genes st mask x = POk (v, up) ->
+  (nth_error v g = Some true <->
+   st_n_min st <= pi_n1 x /\ st_n_min st <= pi_n2 x /\
+   (exists a, nth_error (approx_correct_ttest (pi_SP x) (pi_T x) (pi_p x)) g = Some a /\ a < pi_T x) /\
+   in_list mask g /\
+   exists sc, nth_error (pi_scores x) g = Some sc /\ strictly_passes (st_th st) sc).
+Proof. intros st mask x v up g (_ & W & _) He Hf Ho HS. apply sdg_exact_iff; assumption. Qed.
+
+Lemma sdg_pair_swap_wf : forall st mask x v up g, pair_wf x ->
+  - st_S st < q1_min (st_th st) -> q1_min (st_th st) < q1_th (st_th st) ->
+  0 < fold_min (st_th st) -> fold_min (st_th st) < fold_th (st_th st) ->
+  (forall g q1 qd f m1 m2, nth_error (pi_scores x) g = Some (q1, qd, f) ->
+       nth_error (pi_mean1 x) g = Some m1 -> nth_error (pi_mean2 x) g = Some m2 -> f = Z.abs (m1 - m2)) ->
+  score_differential_genes st mask x = POk (v, up) ->
+  exists up', score_differential_genes st mask (swap_pair x) = POk (v, up') /\
+    (nth_error v g = Some true ->
+     forall b, nth_error up g = Some b -> nth_error up' g = Some (negb b)).
+Proof.
+  intros st mask x v up g (_ & W1 & W2) Hf Ho Hfm Hft. apply sdg_pair_swap; try assumption. congruence.
+Qed.
+
+Lemma sdg_sound_full_holm_wf : forall st mask x v up g, pair_wf x ->
+  Forall (fun q => 0 <= q <= pi_SP x) (pi_p x) -> pi_T x <= pi_SP x ->
+  - st_S st < q1_min (st_th st) -> q1_min (st_th st) < q1_th (st_th st) ->
+  score_differential_genes st mask x = POk (v, up) -> nth_error v g = Some true ->
+  st_n_min st <= pi_n1 x /\ st_n_min st <= pi_n2 x /\
+  (exists h, nth_error (correct_ttest (pi_SP x) 0 (pi_p x)) g = Some h /\ h < pi_T x) /\
+  in_list mask g /\
+  exists sc, nth_error (pi_scores x) g = Some sc /\ crit (st_th st) (st_exact st) sc.
+Proof. intros st mask x v up g _. apply sdg_sound_full_holm. Qed.
+
+Lemma find_markers_workers_pos : forall st gn gl np np' pairs, (1 <= np)%nat -> (1 <= np')%nat ->
+  find_markers st gn gl np pairs = find_markers st gn gl np' pairs.
+Proof. intros st gn gl np np' pairs _ _. apply find_markers_workers. Qed.
+
+(* the totalisations themselves, so that nobody mistakes them for behaviour of the code *)
+Lemma n_per_of_zero_workers : n_per_of 100 0 = 8%nat.
+Proof. vm_compute. reflexivity. Qed.
